@@ -330,6 +330,11 @@ PROPS["C10"] = dict(
     groups=[dict(mod="v2", pkg="join", overlay="harness/v2/join", harness="^VerifC10_(interval|wiring|step)$", params=_INACC),
             dict(mod="v2", pkg="join/unite", overlay="harness/v2/unite", harness="^VerifC10_(interval|wiring|step)$", params=_INACC),
             dict(mod="v1", pkg="join", overlay="harness/v1/join", harness="^VerifC10_(interval|wiring|step)$", params=_INACC),
+            # runs through the real New with an adversarial ticker (coarse clock): the LOGICAL flush rule - a tick taken at least Timeout after the
+            # oldest buffered element was accepted is followed by a delivery before anything else happens (representation independent)
+            dict(mod="v2", pkg="join", overlay="harness/v2/join", harness="^VerifC03_join_timed$", params=dict(quick=dict(JS=[2, 3], M=[4], T=[2]), thorough=dict(JS=[2, 3, 4], M=[5], T=[3]))),
+            dict(mod="v2", pkg="join/unite", overlay="harness/v2/unite", harness="^VerifC03_unite_timed$", params=dict(quick=dict(JS=[2, 3], K=[3], T=[2]), thorough=dict(JS=[2, 3, 4], K=[4], T=[2]))),
+            dict(mod="v1", pkg="join", overlay="harness/v1/join", harness="^VerifC03_v1join_normal$", params=dict(quick=dict(JS=[2, 3], M=[4], T=[2]), thorough=dict(JS=[2, 3, 4], M=[5], T=[3]))),
             # bounded runs with a periodic ticker, timed arrivals and a latency parameter lambda (c = 3)
             dict(mod="v2", pkg="join", overlay="harness/v2/join", harness="^VerifC10_run$", timeout=dict(quick=60000, thorough=180000),
                  params=dict(quick=dict(M=[1], inacc=[100, 50], c=[3], ticks=[3]), thorough=dict(M=[1, 2], inacc=[100, 50], c=[3], ticks=[3]))),
